@@ -32,7 +32,8 @@ def required_cells(tier):
     return {"variant:differential": 6, "variant:linear": 4,
             "variant:nofield": 3, "variant:frozen": 3, "nsys:1": 3, "nsys:2": 3, "nsys:3": 1,
             "start!=0": 4, "record_all:False": 2, "heun_steps_checked": 50,
-            "td": 4, "subdiv:None": 8, "second-solver-on-same-system": 8}
+            "td": 4, "subdiv:None": 8, "second-solver-on-same-system": 8,
+            "pulsed-H&loose-liouvillian-epsrel": 2}
 
 
 def cases(tier, seed):
@@ -156,12 +157,23 @@ def run_case(case):
     # subdiv_limit=None is a documented mode of its own (the Liouvillian is
     # sampled at two points per step instead of integrated): both methods
     # must honour it
+    violations, cells, monitors = [], [], {}
     subdiv = None if (i // 3) % 4 == 1 else 256
     params = lib.tempo_params(dt, epsrel, kmax, tau, subdiv)
+    # a Hamiltonian that is not smooth within a step, integrated with a
+    # deliberately loose tolerance for the Liouvillian (a parameter of its
+    # own, unrelated to the SVD tolerance): both methods must use it
+    liou_eps = None
+    if variant == "differential" and i % 7 == 3 and subdiv is not None:
+        mf.pulse = (1.7 * dt, 0.37)
+        liou_eps = 0.2
+        kwp = dict(dt=dt, epsrel=epsrel, dkmax=kmax, subdiv_limit=subdiv,
+                   liouvillian_epsrel=liou_eps)
+        params = oqupy.TempoParameters(**kwp)
+        cells.append("pulsed-H&loose-liouvillian-epsrel")
     end = lib.end_time(start, dt, nsteps)
     bound = C_BOUND * epsrel * max(scales) * lib.pt_growth(nsteps)
     texp = start + dt * np.arange(nsteps + 1)
-    violations, cells, monitors = [], [], {}
     obs = {}
 
     # --- MeanFieldTempo with recorded field equation
@@ -252,7 +264,8 @@ def run_case(case):
         dyn_b = oqupy.compute_dynamics_with_field(
             mfs_b, a0, process_tensor_list=pts, initial_state_list=rhos,
             start_time=start, record_all=record_all, subdiv_limit=subdiv,
-            progress_type="silent")
+            progress_type="silent",
+            **({} if liou_eps is None else {"liouvillian_epsrel": liou_eps}))
         fb = np.array(dyn_b.fields)
         tb = np.array(dyn_b.times)
         if record_all:
